@@ -281,21 +281,27 @@ class Engine(ExprMixin, CallMixin, SpecMixin, StmtMixin):
         from .stmts import has_quant
         if not c.cuts:
             return self.exec_block(fn.body, st)
-        seen = {}
         points = {}
+        count = {}
         for k, stmt in enumerate(fn.body):
+            # a cut key is 'dotted callee@n' (n-th top-level statement calling it) or a source prefix of the statement
+            callee = None
+            node = stmt.value if isinstance(stmt, (ast.Expr, ast.Assign)) else (stmt.test if isinstance(stmt, ast.Assert) else None)
+            if isinstance(node, ast.Call):
+                callee = self.dotted(node.func)
             try:
                 src = ast.unparse(stmt)
             except Exception:
-                continue
+                src = ""
+            if callee is not None:
+                count[callee] = count.get(callee, 0) + 1
+                key = "%s@%d" % (callee, count[callee])
+                if key in c.cuts:
+                    points[k] = key
+                    continue
             for key in c.cuts:
-                base, _, nth = key.partition("@")
-                if src.startswith(base):
-                    n = seen.get((base, k), None)
-                    cnt = sum(1 for (b, kk) in seen if b == base) + 1
-                    seen[(base, k)] = cnt
-                    if (nth == "" and cnt == 1) or (nth != "" and int(nth) == cnt):
-                        points[k] = key
+                if "@" not in key and src.startswith(key):
+                    points[k] = key
         missing = [k for k in c.cuts if k not in points.values()]
         if missing:
             raise StaleContract("%s: cut point(s) %r not found in the function body" % (c.qualname, missing))
